@@ -4,6 +4,7 @@ import itertools
 import json
 
 import lib
+import translate_tie
 
 # transport error, 2xx, 3xx, 4xx, 5xx: the 4xx and 5xx representatives sit ON the boundary of the
 # "status below 500" test, so the exhaustive block itself decides `< 500` against `<= 500` / `< 499`
@@ -141,6 +142,14 @@ def main(run):
         run.violation(replay, no_input=(v != 2))
     if not proof_ok and not confirmed:
         run.proof_failure_violation()
+    # second tie: the model regenerated from retry.go by the translator, bridged to Model/Retry.v inside Coq
+    tie = translate_tie.translation_tie(run, "retry")
+    run.log("translation tie:", tie["status"])
+    if tie["status"].startswith("bridge-broken") and not confirmed:
+        # code and model are no longer provably equal on ALL inputs, and the differential stream found no input
+        run.violation({"kind": "translation-bridge-broken", "bridge": tie["status"], "functions": tie.get("functions"),
+                       "theorem": "coq/Bridge/RetryBridge.v (generated model of middleware/retry.go = Model/Retry.v)",
+                       "correspondence": "translator:C20:go2gallina retry"}, no_input=True)
     retried = set()
     for (n, sc), o in zip(cases, obs):
         if o["calls"] >= 2:
@@ -162,6 +171,7 @@ def main(run):
         "mismatches_first_pass": len(mism),
         "mismatches_confirmed_on_slow_rerun": len(confirmed),
         "timing_mismatches_not_reproduced": len(mism) - len(confirmed),
+        "translation_tie": tie,
         "samples": [{"n": n, "script": sc, "observed": o} for (n, sc), o in
                     [(cases[i], obs[i]) for i in (7, len(cases) // 2, len(cases) - 3)]],
     }
